@@ -104,9 +104,14 @@ impl Ctx {
 
 	/// pick a workload size by tier
 	pub fn scale(&self, quick: u64, thorough: u64) -> u64 {
-		match self.tier {
+		let n = match self.tier {
 			Tier::Quick => quick,
 			Tier::Thorough => thorough,
+		};
+		// slow instrumented layers (valgrind, ASan) run the same workloads scaled down
+		match std::env::var("VERIF_SCALE_DIV").ok().and_then(|s| s.parse::<u64>().ok()) {
+			Some(d) if d > 1 => (n / d).max(1),
+			_ => n,
 		}
 	}
 
